@@ -43,7 +43,8 @@ type iterSpec struct {
 }
 
 type hop struct {
-	Kind    string    `json:"kind"` // new | append | join | setid | publish | iter
+	Kind    string    `json:"kind"`           // new | append | join | setid | publish | iter | open
+	Keep    []int     `json:"keep,omitempty"` // open: the selected entries of replica Src (indices into the list of appended entries), in map order
 	R       int       `json:"r"`
 	Src     int       `json:"src,omitempty"`
 	LogID   string    `json:"logid,omitempty"`
@@ -87,6 +88,7 @@ type replica struct {
 	sort  string
 	logID string
 	ident string
+	keyed bool
 }
 
 type world struct {
@@ -268,6 +270,7 @@ type histRun struct {
 	// classification of what happened, for coverage statistics
 	forks, merges, tiesPresent, boundedJoins, denied, panics int
 	faulted                                                  int // operations run while the store refused writes
+	opens                                                    int // replicas opened over a selection of another replica's entries
 	nEntries                                                 int
 	inImpl                                                   bool // true while a library call is executing
 	noOracle                                                 bool // replayed copy used as an oracle: no nested oracles
@@ -490,7 +493,7 @@ func (h *histRun) exec() {
 		for k, rep := range w.reps {
 			snaps[k] = snapLog(rep.log)
 		}
-		if o.Kind != "new" && (o.R < 0 || o.R >= len(w.reps)) || (o.Kind == "join" && (o.Src < 0 || o.Src >= len(w.reps))) {
+		if o.Kind != "new" && o.Kind != "open" && (o.R < 0 || o.R >= len(w.reps)) || ((o.Kind == "join" || o.Kind == "open") && (o.Src < 0 || o.Src >= len(w.reps))) {
 			ob.Class = "badindex"
 			ob.SkipState = true
 			h.obs = append(h.obs, ob)
@@ -529,9 +532,44 @@ func (h *histRun) exec() {
 				if err != nil {
 					panic(err)
 				}
-				w.reps = append(w.reps, &replica{log: l, ac: ac, sort: o.Sort, logID: o.LogID, ident: o.Ident})
+				w.reps = append(w.reps, &replica{log: l, ac: ac, sort: o.Sort, logID: o.LogID, ident: o.Ident, keyed: o.Keyed})
 				ob.R = len(w.reps) - 1
 				unbounded[ob.R] = true
+			case "open":
+				// a new replica opened over a selection of replica Src's entries (NewLog with LogOptions.Entries
+				// and no heads - what the loaders do with the result of a complete or a limited load)
+				src := w.reps[o.Src]
+				held := src.log.GetEntries()
+				om := entry.NewOrderedMap()
+				for _, k := range o.Keep {
+					c := cidAt(w, k).String()
+					if e, ok := held.Get(c); ok {
+						om.Set(c, e)
+					}
+				}
+				denied := map[string]bool{}
+				for _, d := range o.Deny {
+					denied[string(w.idents[d].PublicKey)] = true
+				}
+				var ac accesscontroller.Interface
+				if len(denied) > 0 {
+					ac = &denyAC{denied: denied}
+				}
+				lopts := &ipfslog.LogOptions{ID: src.logID, SortFn: sortFnOf(o.Sort), AccessController: ac, Entries: om}
+				if src.keyed {
+					lopts.IO = w.sealedIO()
+				}
+				h.inImpl = true
+				l, err := ipfslog.NewLog(w.api, w.idents[o.Ident], lopts)
+				h.inImpl = false
+				if err != nil {
+					panic(err)
+				}
+				w.reps = append(w.reps, &replica{log: l, ac: ac, sort: o.Sort, logID: src.logID, ident: o.Ident, keyed: src.keyed})
+				ob.R = len(w.reps) - 1
+				h.opens++
+				// a selection that leaves entries out is causally open, like what a bounded join leaves
+				unbounded[ob.R] = unbounded[o.Src] && om.Len() == held.Len()
 			case "append":
 				rep := w.reps[o.R]
 				before := rep.log.GetEntries().Slice()
@@ -1227,6 +1265,15 @@ func (h *histRun) coq() string {
 			op = fmt.Sprintf("OAppend %s %s %s %s", coqNat(o.R), coqN(r.payloads[o.Payload]), coqZ(int64(o.PC)), coqN(hh))
 		case "join":
 			op = fmt.Sprintf("OJoin %s %s %s", coqNat(o.R), coqNat(o.Src), coqZ(int64(o.Size)))
+		case "open":
+			var deny, keep []int
+			for _, d := range o.Deny {
+				deny = append(deny, r.keys.rank(string(w.idents[d].PublicKey)))
+			}
+			for _, k := range o.Keep {
+				keep = append(keep, r.hashes.rank(cidAt(w, k).String()))
+			}
+			op = fmt.Sprintf("OOpen %s %s %s %s %s", coqNat(o.Src), coqNList(keep), coqN(r.keys.rank(string(w.idents[o.Ident].PublicKey))), sortCoq(o.Sort), coqNList(deny))
 		case "setid":
 			op = fmt.Sprintf("OSetIdentity %s %s", coqNat(o.R), coqN(r.keys.rank(string(w.idents[o.Ident].PublicKey))))
 		case "publish":
